@@ -214,9 +214,10 @@ func c10(e *Env) {
 		var addr string
 		k := len(list)
 		if c.Choose("v6", 3) == 2 {
-			addr = fmt.Sprintf("fd00::%x:%x", c.Choose("v6a", 4), 1+k)
+			// (prefixes that sort before and after the IPv4 octets in use, whichever byte form is compared)
+			addr = fmt.Sprintf("%s::%x:%x", []string{"fd00", "2001:db8", "fe80", "64:ff9b"}[c.Choose("v6prefix", 4)], c.Choose("v6a", 4), 1+k)
 		} else {
-			addr = fmt.Sprintf("%d.%d.0.%d", []int{10, 172, 192, 9}[c.Choose("v4a", 4)], c.Choose("v4b", 3), 1+k)
+			addr = fmt.Sprintf("%d.%d.0.%d", []int{10, 172, 192, 9, 127, 254}[c.Choose("v4a", 6)], c.Choose("v4b", 3), 1+k)
 		}
 		if used[addr] {
 			continue
